@@ -170,3 +170,34 @@ def distribution(lines, outs):
         k = l.split()[1] + ":" + ("ok" if o.startswith("OK") else "err" if o == "ERR" else "other")
         d[k] = d.get(k, 0) + 1
     return d
+
+
+def source_functions(rep):
+    """Informational (never a violation): go/gosrc translates 13 small loop-free integer functions of the CURRENT
+    source into Gallina (gen/TabSrc.v) and props/SrcFns<Pkg>.v re-prove that they equal the model's functions for
+    all arguments (one file per package).  A behaviour-preserving rewrite of one of them can make its proof (or
+    its translation) fail; the behavioural correspondence still covers the function then."""
+    info = {"note": "informational: regenerate-from-source-and-re-prove tie for loop-free integer functions", "packages": {}}
+    try:
+        info["translator"] = run_gosrc()
+        tab = open(os.path.join(COQ, "gen", "TabSrc.v")).read()
+        info["translated"] = tab.count("_ok : bool := true")
+        info["not_translatable"] = tab.count("_ok : bool := false")
+        proved = 0
+        for pk in ("Pdf417", "Aztec", "DataMatrix", "Qr", "Utils"):
+            ok, log = coq_build(["props/SrcFns%s.vo" % pk])
+            pa = parse_assumptions("props/SrcFns%s.v" % pk, log)
+            good = ok and not pa["axioms"] and pa["closed"] >= len(pa["printed"]) and pa["closed"] > 0
+            info["packages"][pk] = "proved" if good else ("not proved: " + first_error(log)[:160])
+            proved += 1 if good else 0
+        info["packages_proved"] = "%d of 5" % proved
+    except BuildError as e:
+        info["error"] = (e.what + ": " + first_error(e.log))[:300]
+    except Exception as e:
+        info["error"] = repr(e)[:300]
+    rep.cov["source_functions"] = info
+
+
+def extra(rep, impl_exe, model_exe, rng, tier):
+    source_functions(rep)
+    return []
